@@ -374,6 +374,13 @@ def gen_plant(rng, g, name, nodes, f, price_key, chp=False, simple=False, fuel=T
                 kd = int(rng.integers(1, k + 1))
                 a['shutdown_ramp_lower_bounds'] = lows[:kd]
                 a['shutdown_ramp_upper_bounds'] = [r2(v * 1.1) for v in lows[:kd]]
+            if chp and rng.random() < 0.5:
+                # bounds on the HEAT dispatch during the start (and shutdown) ramp
+                a['start_ramp_lower_bounds_heat'] = [0.] * len(lows)
+                a['start_ramp_upper_bounds_heat'] = [r2(v * pick(rng, [0.25, 0.5])) for v in a['start_ramp_upper_bounds']]
+                if a.get('shutdown_ramp_lower_bounds') and rng.random() < 0.7:
+                    a['shutdown_ramp_lower_bounds_heat'] = [0.] * len(a['shutdown_ramp_lower_bounds'])
+                    a['shutdown_ramp_upper_bounds_heat'] = [r2(v * 0.5) for v in a['shutdown_ramp_upper_bounds']]
             # one profile value per grid step unless the main unit is finer than the step (then EAO averages the profile); a profile given in a unit
             # coarser than the step would be longer than the short horizons used here
             if pd.Timedelta(to_offset(g['unit'])) > pd.Timedelta(to_offset(g['freq'])) or rng.random() < 0.5:
